@@ -196,6 +196,18 @@ fn file_rle(p: &std::path::Path, reserved: usize, offset: usize) -> (u64, Value)
   }
 }
 
+/// what the descriptive accessors of one arena value report (C16: "the mode and options the arena was created with")
+fn mode_of<A: ArenaX>(a: &A) -> Value {
+  json!({
+    "data_offset": a.data_offset(), "reserved_bytes": a.reserved_bytes(), "reserved_len": a.reserved_slice().len(),
+    "unify": a.unify(), "read_only": a.read_only(), "is_map": a.is_map(), "is_ondisk": a.is_ondisk(),
+    "is_inmemory": a.is_inmemory(), "is_map_anon": a.is_map_anon(), "is_map_file": a.is_map_file(),
+    "path": a.path_string().unwrap_or_default(), "magic_version": a.magic_version(), "version": a.version(),
+    "page_size": a.page_size(), "minimum_segment_size": sat(a.minimum_segment_size() as u64), "kind": debug_kind(a),
+    "discarded": sat(a.discarded() as u64), "refs": a.refs(),
+  })
+}
+
 pub struct Inst<A: ArenaX> {
   arena: *mut A,
   // further arena values of the same arena (Clone), newest last
@@ -423,7 +435,8 @@ impl<A: ArenaX> Inst<A> {
       "cobs" => match self.clones.last() {
         Some(c) => {
           let c: &A = unsafe { &**c };
-          json!({"k": "ok", "cap": sat(c.capacity() as u64), "rem": sat(c.remaining() as u64), "alloc": sat(c.allocated() as u64)})
+          json!({"k": "ok", "cap": sat(c.capacity() as u64), "rem": sat(c.remaining() as u64), "alloc": sat(c.allocated() as u64),
+                 "descr": mode_of(c), "descr0": mode_of(a)})
         }
         None => json!({"k": "skip"}),
       },
